@@ -394,6 +394,31 @@ def e4(ctx):
                 if missing:
                     okt = False
                     witt = fmt_trace(p.trace)
+        # a nested bulk removal that times out carries its own partial count: it must not be dropped
+        okn, witn = True, None
+        for p in ctx.paths(f, 'default'):
+            if p.kind == 'cut':
+                continue
+            tr = p.trace
+            for i, e in enumerate(tr):
+                if e.kind == 'CALL' and not e.d.get('inlined') and any(
+                        t.cls == 'Cache' and t.name in E4_FUNCS for t in e.d['targets']):
+                    nxt = tr[i + 1] if i + 1 < len(tr) else None
+                    if nxt is not None and nxt.kind == 'RAISE' and nxt.d.get('call') == e.seq and \
+                            nxt.d.get('typ') == 'Timeout':
+                        caught = any(x.kind == 'CATCH' and x.d['typ'] == 'Timeout' for x in tr[i + 2:i + 4])
+                        if not caught:
+                            continue
+                        if p.kind == 'raise' and p.raised() == 'Timeout':
+                            data = p.outcome[1].data or []
+                            has_exc = any(x.k == 'exc' for d in data for x in values_in(d))
+                            if not has_exc and not p.outcome[1].hyp:
+                                okn, witn = False, fmt_trace(tr)
+                        elif p.kind == 'return':
+                            okn, witn = False, fmt_trace(tr)
+        obs.append(Ob('E4', 'Cache.%s/nested-timeout-count-kept' % name, okn,
+                      'a Timeout raised by a nested bulk removal (which carries the number of items that call had '
+                      'already removed) is caught and replaced by a Timeout/return that drops that number', f.loc(), witn))
         obs.append(Ob('E4', 'Cache.%s/return-counts-everything' % name, okr and nr > 0,
                       'a return path yields a value that does not include every batch of rows removed (or the count '
                       'returned by expire()) on that path', f.loc(), witr))
